@@ -1,6 +1,6 @@
 (* C07 — Base58, Base58Check and bech32 are exact, strict, side-effect-free inverses.
    Only statements; every proof is `exact <lemma proved elsewhere>`. *)
-From BU Require Import Lib.Bytes Base58.Base58 Base58.Base58Proofs.
+From BU Require Import Lib.Bytes Lib.Slice Base58.Base58 Base58.Base58Proofs Bech32.Bech32 Bech32.Bech32Proofs Bech32.Purity Gen.AppendSites.
 
 (* Decode after Encode is the identity on every byte string *)
 Theorem C07_base58_decode_encode : forall b, Bytes b -> Base58.decode (Base58.encode b) = b.
@@ -32,3 +32,58 @@ Theorem C07_check_accept_iff : forall s payload version,
   exists ck, Base58.decode s = (version :: payload) ++ ck /\ length ck = 4%nat /\ ck = checksum (version :: payload).
 Proof. exact check_accept_iff. Qed.
 Print Assumptions C07_check_accept_iff.
+
+(* ---------------- bech32 ---------------- *)
+(* Decode(Encode(hrp, data)) = (hrp, data) for every lower-case printable hrp and 5-bit data within the 90-character limit *)
+Theorem C07_bech32_roundtrip : forall hrp data,
+  hrp_ok hrp -> Forall (fun x => x < 32) data -> (length hrp + 1 + length data + 6 <= 90)%nat ->
+  exists s, Bech32.encode hrp data = Ok s /\ length s = (length hrp + 1 + length data + 6)%nat /\
+            Bech32.decode s = Ok (hrp, data).
+Proof. exact bech32_roundtrip. Qed.
+Print Assumptions C07_bech32_roundtrip.
+
+(* everything Decode accepts satisfies the BIP173 conditions and is exactly the (case-folded) encoding of what
+   it returns: so mixed case, foreign characters, a misplaced separator, wrong length, a character outside the
+   charset and a wrong checksum are all rejected, and decoding is injective up to case *)
+Theorem C07_bech32_decode_canonical : forall s hrp data,
+  Bech32.decode s = Ok (hrp, data) ->
+  (8 <= length s <= 90)%nat /\
+  Forall (fun c => 33 <= c /\ c <= 126) s /\
+  (s = map to_lower s \/ s = map to_upper s) /\
+  hrp_ok hrp /\ Forall (fun x => x < 32) data /\
+  Bech32.encode hrp data = Ok (map to_lower s).
+Proof. exact bech32_decode_canonical. Qed.
+Print Assumptions C07_bech32_decode_canonical.
+
+Theorem C07_bech32_rejects_mixed_case : forall s,
+  s <> map to_lower s -> s <> map to_upper s -> forall r, Bech32.decode s <> Ok r.
+Proof. exact bech32_rejects_mixed_case. Qed.
+Print Assumptions C07_bech32_rejects_mixed_case.
+
+Theorem C07_bech32_rejects_length : forall s, (length s < 8 \/ 90 < length s)%nat -> forall r, Bech32.decode s <> Ok r.
+Proof. exact bech32_rejects_length. Qed.
+Print Assumptions C07_bech32_rejects_length.
+
+Theorem C07_bech32_rejects_foreign_char : forall s c,
+  In c s -> (c < 33 \/ 126 < c) -> forall r, Bech32.decode s <> Ok r.
+Proof. exact bech32_rejects_foreign_char. Qed.
+Print Assumptions C07_bech32_rejects_foreign_char.
+
+(* ---------------- purity ---------------- *)
+(* bech32.Encode leaves every array that existed before the call unchanged, whatever the capacity of `data` *)
+Theorem C07_bech32_encode_pure : forall h data checksum id,
+  slice_ok h data -> (id < length h)%nat -> arr (fst (encode_mem h data checksum)) id = arr h id.
+Proof. exact encode_pure. Qed.
+Print Assumptions C07_bech32_encode_pure.
+
+(* the finding that was repaired: append(data, checksum...) wrote into the caller's spare capacity *)
+Theorem C07_bech32_encode_old_impure_refuted :
+  exists h data checksum id, slice_ok h data /\ (id < length h)%nat /\
+    arr (fst (encode_mem_old h data checksum)) id <> arr h id.
+Proof. exact encode_old_impure_refuted. Qed.
+Print Assumptions C07_bech32_encode_old_impure_refuted.
+
+(* static obligation recomputed from the Go source on every run *)
+Theorem C07_no_exported_append_sites : append_sites_exported = [].
+Proof. exact no_exported_append_sites. Qed.
+Print Assumptions C07_no_exported_append_sites.
